@@ -628,10 +628,10 @@ func main() {
 		for _, kw := range append([]string{"a"}, kws...) {
 			lines = append(lines, kw+" } "+kw, "} "+kw, kw+" {", "{ "+kw, kw+" }", kw+" { }")
 		}
-		// second lines of two-line blocks: each own keyword with no argument, "a" or "/"
+		// second lines of two-line blocks: each own keyword with no argument, "a", "/", an empty string or "0"
 		var second []string
 		for _, kw := range kws {
-			second = append(second, kw, kw+" a", kw+" /", kw+" \"\"")
+			second = append(second, kw, kw+" a", kw+" /", kw+" \"\"", kw+" 0")
 		}
 		for hi, h := range heads {
 			item++
